@@ -17,7 +17,7 @@ import (
 // runHistory executes one history (generated on the fly or replayed) and writes its log
 func runHistory(w *bufio.Writer, id int, profile string, seed uint64, nOps int, replay []Op) {
 	e := NewEnv()
-	fmt.Fprintf(w, "HIST id=%d gen=%s seed=%d switch=%d\n", id, profile, seed, b2i(keeper.EnableAddAllowedBidder))
+	fmt.Fprintf(w, "HIST id=%d gen=%s seed=%d switch=%d t0=%d\n", id, profile, seed, b2i(keeper.EnableAddAllowedBidder), T0)
 	for _, l := range e.Dump() {
 		fmt.Fprintln(w, l)
 	}
@@ -139,7 +139,18 @@ func main() {
 			}
 		}
 		for i, h := range hists {
+			// a replayed history starts at the time its original started at
+			T0 = tFuture
+			for _, f := range strings.Fields(names[i]) {
+				if strings.HasPrefix(f, "t0=") {
+					fmt.Sscanf(f[3:], "%d", &T0)
+				}
+				if f == "gen=extreme" {
+					extremeFunds = true
+				}
+			}
 			runHistory(w, *first+i, "replay", 0, 0, h)
+			extremeFunds = false
 		}
 		return
 	}
@@ -172,6 +183,10 @@ func main() {
 		}
 		s := *seed*1000003 + uint64(id)*7919 + 17
 		extremeFunds = (p == "extreme")
+		T0 = tFuture
+		if id%7 == 3 {
+			T0 = tPast
+		}
 		nops := *ops
 		if *det > 1 {
 			// the same history several times in this process: every line of the log must be identical
